@@ -22,7 +22,7 @@ RULE = ("union of C13 trees and C15 pattern sets: directory trees x recursive on
         "of the case")
 ASSUMPTIONS = ["default module_path_separator", "the input directory itself is not excluded and holds a .cmake file when "
                "auto-exclusion is on"]
-BUDGET = {"quick": {"shards": 4, "examples": 150}, "thorough": {"shards": 16, "examples": 2500}}
+BUDGET = {"quick": {"shards": 8, "examples": 200}, "thorough": {"shards": 16, "examples": 2500}}
 
 
 def strategy(tier):
